@@ -162,6 +162,10 @@ func runC03(cfg Config) {
 		rep.Disagree(Disagreement{Kind: "monitor", Case: clip(caseLine, 100000), Impl: clip(impl, 400), What: what})
 	}
 
+	s3f := newFakeS3()
+	defer s3f.Close()
+	s3stores := map[string]desync.S3Store{}
+	sshWrap, sshErr := sftpWrapper(cfg.Work)
 	hsrv := &rawHTTP{objs: map[string][]byte{}}
 	ts := httptest.NewServer(hsrv)
 	defer ts.Close()
@@ -238,6 +242,30 @@ func runC03(cfg Config) {
 					}
 
 					backends := map[string]desync.Store{"local": ls, "http": hs}
+					// S3: the same bytes as an object of a bucket in the in-process S3 service
+					s3f.mu.Lock()
+					s3f.objects = map[string][]byte{"bkt/pre/" + sid[:4] + "/" + sid + ext: raw}
+					s3f.mu.Unlock()
+					// (one client per option set: every minio client keeps its own idle connections)
+					okey := fmt.Sprintf("%v/%v", comp, skip)
+					if _, ok := s3stores[okey]; !ok {
+						s3s, err := s3f.chunkStore("bkt", "pre/", opt)
+						if err != nil {
+							fatal(err)
+						}
+						s3stores[okey] = s3s
+					}
+					backends["s3"] = s3stores[okey]
+					// SFTP: the local store's directory served by pkg/sftp's server (a child process per connection)
+					var closers []func()
+					if it%6 == 0 && sshErr == nil {
+						os.Setenv("CASYNC_SSH_PATH", sshWrap)
+						su, _ := url.Parse("sftp://localhost" + dir)
+						if ss, err := desync.NewSFTPStore(su, desync.StoreOptions{N: 1, Uncompressed: !comp, SkipVerify: skip}); err == nil {
+							backends["sftp"] = ss
+							closers = append(closers, func() { ss.Close() })
+						}
+					}
 					var closeProto func()
 					if comp && !skip { // the protocol always carries compressed chunks and always verifies
 						var label map[desync.ChunkID]desync.ChunkID
@@ -297,6 +325,9 @@ func runC03(cfg Config) {
 					}
 					if closeProto != nil {
 						closeProto()
+					}
+					for _, c := range closers {
+						c()
 					}
 				}
 			}
